@@ -539,7 +539,7 @@ def run_monitor(chk: Check, traces: list[dict], label: str) -> dict[tuple[str, i
                 ncalls += len(t["calls"])
     if ncalls == 0:
         return {}
-    cfg = 'SPECIFICATION MSpec\nCONSTANTS\n Ops = {}\n Variant = "as_is"\n Emit = FALSE\nCHECK_DEADLOCK FALSE\n'
+    cfg = 'SPECIFICATION MSpec\nCONSTANTS\n Ops <- NoOps\n Variant = "as_is"\n Emit = FALSE\nCHECK_DEADLOCK FALSE\n'
     r = run_tlc(chk.scratch, "Trace_Wire", cfg, env={"TRACE_FILE": str(tf)}, timeout=1500)
     chk.add_tlc(f"Trace_Wire[{label}]", r)
     vs = {(v["id"], v["cid"]): v for v in r.printed.get("VERDICT", [])}
